@@ -197,8 +197,20 @@ fn display_history(
         if let Some(timestamp) = item.timestamp {
             let local_timestamp = timestamp.with_timezone(&chrono::Local);
             if let Some(time_format) = &config.time_format {
+                use std::fmt::Write as _;
+
+                // N.B. Displaying the formatter fails on an invalid format string, so we
+                // can't use to_string() (which would panic); fall back to the raw format.
                 let fmt_items = chrono::format::StrftimeItems::new(time_format);
-                formatted_timestamp = local_timestamp.format_with_items(fmt_items).to_string();
+                if write!(
+                    formatted_timestamp,
+                    "{}",
+                    local_timestamp.format_with_items(fmt_items)
+                )
+                .is_err()
+                {
+                    formatted_timestamp.clone_from(time_format);
+                }
             }
         }
 
